@@ -885,6 +885,26 @@ def _clip(a, a_min=None, a_max=None, out=None, **kw):
     return r
 
 
+@implements(np.isclose)
+def _isclose(a, b, rtol=1e-05, atol=1e-08, equal_nan=False):
+    # |a - b| <= atol + rtol * |b| for finite values; a concrete infinity is close only to the same infinity, nan to nothing
+    def one(x, y):
+        x, y = _b2n(x), _b2n(y)
+        for u, v in ((x, y), (y, x)):
+            if isinstance(u, R) and u.conc() and not math.isfinite(u.n):
+                if isinstance(v, R) and v.conc():
+                    return bool(u.n == v.n)
+                return False            # symbolic values range over the finite reals
+        return abs(x - y) <= atol + rtol * abs(y)
+    r = _frompy(one, 2)(obj(a), obj(b))
+    return _wrap(r, np.dtype(bool))
+
+
+@implements(np.allclose)
+def _allclose(a, b, rtol=1e-05, atol=1e-08, equal_nan=False):
+    return bool(np.all(_isclose(a, b, rtol=rtol, atol=atol)))
+
+
 @implements(np.trace)
 def _trace(a, offset=0, axis1=0, axis2=1, dtype=None, out=None):
     a = _sa(a)
